@@ -363,5 +363,17 @@ func (g *G) GenCall(p *Profile, rules []*RuleDef, idx int) *Call {
 			pl.Stop = true
 		}
 	}
+	// an endless-loop fault costs a whole loop budget of steps: in a large rule set only a few rules of one
+	// call carry one, or the run's step cap would be reached by honest work
+	unb := 0
+	for _, r := range rules {
+		pl := c.Plan[r.ID]
+		if pl.Fire >= 0 && pl.Fire < len(r.Secs) && (r.Secs[pl.Fire].Kind == SecUnb || r.Secs[pl.Fire].Kind == SecUnbCont) {
+			unb++
+			if unb > 4 {
+				pl.Fire, pl.FireChild = -1, -1
+			}
+		}
+	}
 	return c
 }
